@@ -255,6 +255,8 @@ CHECKS["C06"] = {
         ]},
         {"engine": "P", "pkg": "internal/upstream", "tests": [
             {"run": "TestVfC06FallbackLeg", "quick": 240, "thorough": 24000, "shards_quick": 8, "shards_thorough": 16, "timeout_thorough": 3000},
+            # the fallback leg with failing TCP sides: whatever is returned is the reply to the caller's own query
+            {"run": "TestVfC16Fallback", "quick": 400, "thorough": 40000, "timeout_thorough": 3000, "shards_quick": 8, "shards_thorough": 16},
         ]},
     ],
     "assumptions": ["the fake server sends exactly one reply per query, echoing the query's ID"],
